@@ -21,21 +21,25 @@ statement order are all taken from the ast nodes.  Anything outside the whitelis
 with the line number.  Docstrings, comments, `pass`, type annotations and `logger.<level>(...)` calls
 are ignored.  Outside the method bodies the three modules may only contain imports, class definitions, plain
 `name = ...` assignments and functions that do not rebind a name the translation relies on (no
-monkeypatching, no class-level assignments, no __getattr__ / __setattr__, no decorators); a local may not
-be bound to the object's own list / dict (aliasing).
+monkeypatching, no class-level assignments, no __getattr__ / __setattr__, no decorators); a local may be
+bound to the object's own list / dict only as a snapshot that is taken right before the attribute is re-bound.
 
 Accepted statements (method bodies):
     if <e>: ... [else: ...]           (the statements after the `if` are continued in both branches)
     raise <ErrorClass>(...)           ErrorClass in Base.errcls; the message is ignored
     return / return <e>
     <name> = <e>     <a>, <b> = <e>     <name> += <e>   (also -=, *=)
+    <name> = self.<list/dict>         only as a snapshot: until the attribute is re-bound to a fresh container
+                                      (next line below) nothing may change the object in place or call a method
+    self.vrptw.<dict> = dict() / {}   (self.<dict> = ... inside VRPTW; lists: [] / list())   re-binding to a fresh container
     self.<dict>[<e>] = <e>
     self.<list>.append(<e>) / .insert(<e>, <e>) / .remove(<e>) / .pop(<e>)      self.<dict>.clear() / .update(<e>)
     self.<method>(...) / super().<method>(...) / self.vrptw.<method>(...)   as a statement
     def <name>(<params>): <pure body>          nested helper, translated at its first call
     for <pattern> in <e>: <pure body assigning locals defined before the loop>      -> fold_left
+    for <pattern> in <e over locals>: <method calls / mutations, no assignment, no return / raise>   -> for_each
 Accepted expressions: names, int / bool constants (typed by context), np.inf, pairs, attribute reads of
-    self / Node / Arc fields, t[0] / t[1] on pairs, l[i] on lists (IndexError), d[k] on the dict
+    self / Node / Arc fields, <arc>.origin.name / <arc>.destination.name, t[0] / t[1] on pairs, l[i] on lists (IndexError), d[k] on the dict
     (KeyError), == != < <= > >=, in / not in (list of names, dict), + - * (typed), unary - and not,
     and / or (later operands effect-free), `a if c else b`, min / max / len / np.isinf,
     l.index(x), d.items() / keys() / values(), Node(...) / Arc(...), method calls as above, calls of a
@@ -163,11 +167,18 @@ class Ctx:
         self.pure = pure
         self.pre = []                 # pending (open, close) wrappers of the current statement
         self.fields = {}              # init bodies: field -> term
+        self.live = {}                # graph field -> locals bound to the container object it currently holds
+        self.in_loop = False          # inside the body of a for_each loop
 
     def branch(self):
         c = Ctx(self.fn, self.env, self.st, self.pure)
         c.fields = dict(self.fields)
+        c.live = {k: set(v) for k, v in self.live.items()}
+        c.in_loop = self.in_loop
         return c
+
+    def live_names(self):
+        return sorted(set().union(*self.live.values())) if self.live else []
 
     def take(self):
         p, self.pre = self.pre, []
@@ -522,6 +533,8 @@ class Translator:
             return wrap(pre, f"if {test}\nthen ({t1})\nelse ({t2})")
 
         if isinstance(st, ast.FunctionDef):
+            if ctx.in_loop:
+                raise Rejected(f"{where(st)}: def inside a loop")
             self.nested_def(st, ctx)
             tok = ctx.fn.helpers[st.name]["token"]
             return tok + self.block(rest, ctx, mode)
@@ -573,7 +586,16 @@ class Translator:
                 raise Rejected(f"{where(st)}: chained assignment")
             tgt, value = st.targets[0], st.value
         if is_name(tgt):
-            if self.self_field(value, ctx) is not None or (
+            fld = self.self_field(value, ctx)
+            if fld is not None and not ctx.pure and not ctx.in_loop:
+                # alias of the container object: the name stands for its present content as long as nothing
+                # changes that object in place; mutate() / method calls are refused while the alias is live,
+                # re-binding the attribute to a fresh container ends it
+                fty, acc, _ = GRAPH_FIELDS[fld]
+                self.bind_local(st, tgt.id, ctx, fty, f"({acc} {ctx.st})")
+                ctx.live.setdefault(fld, set()).add(tgt.id)
+                return
+            if fld is not None or (
                     isinstance(value, ast.Call) and isinstance(value.func, ast.Attribute)
                     and value.func.attr in ("items", "keys", "values")):
                 raise Rejected(f"{where(st)}: a local name bound to the object's own list / dict (or a live view of it) "
@@ -600,6 +622,27 @@ class Translator:
         if isinstance(tgt, ast.Attribute) and is_name(tgt.value, "self") and isinstance(mode, InitMode):
             mode.store(self, ctx, st, tgt.attr, value)
             return
+        # self.vrptw.<field> = dict() / [] (self.<field> = ... inside VRPTW): the attribute is re-bound to a
+        # fresh empty container; the container it held before is left as it is (locals bound to it keep it)
+        if isinstance(tgt, ast.Attribute) and tgt.attr in GRAPH_FIELDS and not isinstance(mode, InitMode):
+            cls = ctx.fn.cls
+            direct = is_name(tgt.value, "self") and cls == "VRPTW"
+            via = (cls != "VRPTW" and isinstance(tgt.value, ast.Attribute) and tgt.value.attr == "vrptw"
+                   and is_name(tgt.value.value, "self"))
+            if (direct or via) and not ctx.pure and not ctx.in_loop and ctx.st is not None:
+                fty, acc, setter = GRAPH_FIELDS[tgt.attr]
+                empty_list = (isinstance(value, ast.List) and not value.elts) or (
+                    isinstance(value, ast.Call) and is_name(value.func, "list") and not value.args and not value.keywords)
+                empty_dict = (isinstance(value, ast.Dict) and not value.keys) or (
+                    isinstance(value, ast.Call) and is_name(value.func, "dict") and not value.args and not value.keywords)
+                if (fty[0] == "dict" and empty_dict) or (fty[0] == "list" and empty_list):
+                    for nm in ("dict", "list"):
+                        if nm in ctx.env:
+                            raise Rejected(f"{where(st)}: {nm} is a local name here")
+                    ctx.live.pop(tgt.attr, None)
+                    self.mutate(st, ctx, setter, "dict_new" if fty[0] == "dict" else "[]")
+                    return
+                raise Rejected(f"{where(st)}: self.{tgt.attr} may only be re-bound to an empty {fty[0]}")
         # self.<dict>[key] = value : Python evaluates the value, then the container, then the key
         if isinstance(tgt, ast.Subscript):
             fld = self.self_field(tgt.value, ctx)
@@ -616,6 +659,12 @@ class Translator:
     def mutate(self, node, ctx, setter, new_value):
         if ctx.pure or ctx.st is None:
             raise Rejected(f"{where(node)}: mutation of the object is not accepted here")
+        fld = [f for f, (_, _, st_) in GRAPH_FIELDS.items() if st_ == setter]
+        if len(fld) != 1:
+            raise Rejected(f"internal: setter {setter}")
+        if ctx.live.get(fld[0]):
+            raise Rejected(f"{where(node)}: self.{fld[0]} is changed in place while the local name(s) "
+                           f"{sorted(ctx.live[fld[0]])} are bound to the same object (aliasing is not translated)")
         s = ctx.fn.fresh_s()
         ctx.let(s, f"{setter} {new_value} {ctx.st}")
         ctx.st = s
@@ -759,13 +808,16 @@ class Translator:
     def for_loop(self, st, ctx):
         if st.orelse:
             raise Rejected(f"{where(st)}: for ... else")
+        if ctx.in_loop:
+            raise Rejected(f"{where(st)}: nested loop")
         ety, it = self.iterable(st.iter, ctx)
         carried = self.targets_of(st.body)
         benv = dict(ctx.env)
         pat = self.pattern(st.target, ety, benv)
         loop_vars = [n.id for n in ast.walk(st.target) if isinstance(n, ast.Name)]
         if not carried:
-            raise Rejected(f"{where(st)}: loop body assigns nothing (only loops that accumulate into locals are accepted)")
+            self.effect_loop(st, ctx, it, pat, benv, loop_vars)
+            return
         for v in carried:
             if v not in ctx.env:
                 raise Rejected(f"{where(st)}: loop assigns {v}, which is not defined before the loop")
@@ -781,6 +833,35 @@ class Translator:
         accpat = "'" + acc if len(carried) > 1 else acc
         elpat = "'" + pat if pat.startswith("(") else pat
         ctx.pre.append((f"let {accpat} := fold_left (fun {accpat} {elpat} =>\n({body})) {it} {acc} in\n", ""))
+
+    def effect_loop(self, st, ctx, it, pat, benv, loop_vars):
+        """`for x in <list built from locals>: <method calls / mutations>` -> for_each: the body is a function of
+        the state and the element; no local is assigned, nothing returns or raises directly (an exception of a
+        called method ends the loop through `call`)."""
+        if ctx.pure or ctx.st is None:
+            raise Rejected(f"{where(st)}: a loop that changes the object is not accepted here")
+        for n in ast.walk(st.iter):
+            if is_name(n, "self"):
+                raise Rejected(f"{where(st)}: the loop iterates over a container of the object while its body may "
+                               "change the object; only locals are accepted here")
+            if isinstance(n, ast.Name) and n.id in ctx.live_names():
+                raise Rejected(f"{where(st)}: the loop iterates over {n.id}, which is still the object's own container")
+        for v in loop_vars:
+            if v in ctx.env or v in ctx.fn.captured:
+                raise Rejected(f"{where(st)}: loop variable {v} shadows an existing name")
+        for n in st.body:
+            for m in ast.walk(n):
+                if isinstance(m, (ast.NamedExpr, ast.Lambda, ast.ListComp, ast.SetComp, ast.DictComp, ast.GeneratorExp)):
+                    raise Rejected(f"{where(m)}: {type(m).__name__} inside a loop that changes the object")
+        s_in = ctx.fn.fresh_s()
+        c = Ctx(ctx.fn, benv, s_in, False)
+        c.live = {k: set(v) for k, v in ctx.live.items()}
+        c.in_loop = True
+        body = self.block(list(st.body), c, EffectLoopMode())
+        elpat = "'" + pat if pat.startswith("(") else pat
+        s_out, v = ctx.fn.fresh_s(), ctx.fn.fresh_t()
+        ctx.effect(st, f"call (for_each (fun {s_in} {elpat} =>\n({body})) {it} {ctx.st}) (fun {s_out} {v} =>\n", ")")
+        ctx.st = s_out
 
     # ---------------- expressions ----------------
     def ex(self, node, ctx, expected=None):
@@ -825,6 +906,12 @@ class Translator:
                 return BOOL, "strict"
             if is_name(node.value, "self") and ctx.st is not None:
                 raise Rejected(f"{where(node)}: attribute self.{node.attr} is not part of the translated state")
+            if node.attr == "name" and isinstance(node.value, ast.Attribute) and node.value.attr in ("origin", "destination"):
+                # <arc>.origin.name / <arc>.destination.name: an Arc holds its endpoint Node objects, known by name
+                aty, aterm = self.ex(node.value.value, ctx, None)
+                if aty == ARC:
+                    return NAT, f"(arc_{node.value.attr}_name {aterm})"
+                raise Rejected(f"{where(node)}: .{node.value.attr}.name of a value of kind {aty}")
             ty, term = self.ex(node.value, ctx, None)
             for cname, sch in VALUE_CLASSES.items():
                 if ty == sch["coq"]:
@@ -1060,6 +1147,9 @@ class Translator:
                   and cls != "VRPTW"):
                 target = "VRPTW"
         if target is not None:
+            if ctx.live_names():
+                raise Rejected(f"{where(node)}: method call while the local name(s) {ctx.live_names()} are bound to a "
+                               "container of the object (the callee could change it in place; aliasing is not translated)")
             rec = self.resolve(target, f.attr, node)
             if len(args) != len(rec["params"]):
                 raise Rejected(f"{where(node)}: {f.attr} called with {len(args)} of {len(rec['params'])} arguments "
@@ -1161,6 +1251,24 @@ class LoopMode:
     def fallthrough(self, tr, ctx):
         ts = [ctx.env[v][1] for v in self.carried]
         return "(" + ", ".join(ts) + ")" if len(ts) > 1 else ts[0]
+
+    def ret_none(self, tr, ctx, st):
+        raise Rejected(f"{where(st)}: return inside a loop")
+
+    def ret_value(self, tr, ctx, st, ty, term):
+        raise Rejected(f"{where(st)}: return inside a loop")
+
+    def raise_(self, tr, ctx, st, cls):
+        raise Rejected(f"{where(st)}: raise inside a loop")
+
+
+class EffectLoopMode:
+    """body of a for_each loop: M unit; ends by falling off the end"""
+    def expected_return(self):
+        return None
+
+    def fallthrough(self, tr, ctx):
+        return f"ret {ctx.st} tt"
 
     def ret_none(self, tr, ctx, st):
         raise Rejected(f"{where(st)}: return inside a loop")
